@@ -137,6 +137,24 @@ pub fn run(prop: &str, seed: u64, tier_thorough: bool, trace_path: Option<&str>,
             }
         }
     }
+    // inputs longer than the 8 MiB dictionary the .lzma encoder announces: the decoder's window wraps, and the
+    // literal right after the wrap takes its context from the last byte of the window
+    for (n, oname) in [((8usize << 20) + 4096, "default"), ((8 << 20) + 1, "skip")] {
+        let input: Vec<u8> = (0..n).map(|i| 0x41u8.wrapping_add((i % 89) as u8).wrapping_add((i / 8191) as u8) | 0x20).collect();
+        let mut out = vec![];
+        let mut src = &input[..];
+        let r = if oname == "default" {
+            catch(|| lzma_rs::lzma_compress(&mut src, &mut out))
+        } else {
+            catch(|| lzma_rs::lzma_compress_with_options(&mut src, &mut out, &lzma_rs::compress::Options { unpacked_size: lzma_rs::compress::UnpackedSize::SkipWritingToHeader }))
+        };
+        let d1 = if oname == "default" { api::lzma_plain(&out) } else { api::lzma_bytes(&out, &api::options(Opt::UseProvided { n: Some(n as u64) }, None, false)) };
+        rep.eval(hash_of(&(n, oname, "beyond-dictionary")), true);
+        if !matches!(r, Caught::Done(Ok(()))) || d1.verdict != Verdict::Ok || d1.out != input {
+            rep.violation(prop, format!("lzma_compress[{}] n={} (longer than the 8 MiB dictionary it announces): the output does not decode back to the input: {:?} {} ({} bytes)", oname, n, d1.verdict, d1.msg, d1.out.len()),
+                json!({"kind": "enc", "api": "lzma", "opt": oname, "n": n, "seed": seed}));
+        }
+    }
     for (li, &n) in lens.iter().enumerate() {
         let kinds: Vec<usize> = if n <= 1000 { (0..7).collect() } else if tier_thorough { vec![0, 1, 2, 3, 5, 6] } else { vec![(li + seed as usize) % 7, 2] };
         for kind in kinds {
